@@ -359,7 +359,13 @@ def _run(check: Check, args, t0: float) -> int:
     known_matched = []
     new_viols = []
     unreplayable: t.List[str] = []
+    t_verdicts = time.time()
     for sig, lst in by_sig.items():
+        # (wall budget of the verdict phase: a tree that breaks a property in many ways gives many signatures; the first ones get the
+        # full treatment - up to 14 candidates, minimisation, history fallback - later ones fewer attempts.  Nothing here can turn a
+        # violation into a pass: the exit code is 1 as soon as one signature is reported.)
+        spent = time.time() - t_verdicts
+        n_cand = 14 if spent < 300 else (3 if spent < 900 else 1)
         k = match_known(check.id, sig, known)
         if k is not None:
             known_matched.append(sig)
@@ -369,9 +375,9 @@ def _run(check: Check, args, t0: float) -> int:
         # stored cases of this signature (a spread over the run, see _run_slice): the first that replays in a fresh interpreter is
         # reported; candidates are tried from both ends and the middle so that a state-dependent prefix does not use up the attempts
         order = sorted(range(len(lst)), key=lambda k_: (not lst[k_][1].get("replay_pref"), min(k_, len(lst) - 1 - k_), k_))
-        for i, v in [lst[k_] for k_ in order[:14]]:
+        for i, v in [lst[k_] for k_ in order[:n_cand]]:
             case = cases[i]
-            small = _minimise(check, case, sig)
+            small = _minimise(check, case, sig) if spent < 900 else case
             path = _write_replay(check, tier, seed, i, small, sig, v, original=case)
             if _verify_replay(check, path):
                 break
@@ -389,7 +395,7 @@ def _run(check: Check, args, t0: float) -> int:
             if hist:
                 hpath = _write_replay(check, tier, seed, i, cases[i], sig, v, original=None, suffix="-history", history=hist)
                 if _verify_replay(check, hpath):
-                    small = _minimise_history(check, tier, seed, i, cases[i], sig, v, hist)
+                    small = _minimise_history(check, tier, seed, i, cases[i], sig, v, hist) if time.time() - t_verdicts < 600 else None
                     if small is not None:
                         hpath = small
                     path = hpath
